@@ -7,7 +7,9 @@ import par_check
 
 TB = ["Coq 8.16.1 kernel", "extraction (ExtrOcamlBasic only) + ocaml/driver.ml (trace validators)",
       "hooks redo::verif::lock_event / verif_token_event (report protocol events in a possible real order)",
-      "lib/par.py, lib/par_check.py (scenario generators, SIGSTOP/SIGCONT schedule perturbation, work-section log)"]
+      "lib/par.py, lib/par_check.py (scenario generators, SIGSTOP/SIGCONT schedule perturbation, work-section log)",
+      "tools/anchors.py (translator: BUILD_LOCK_MAGIC and the order of steps the protocol models assume, read off the source as textual patterns)",
+      "assumed, not verified: SQLite's BEGIN IMMEDIATE excludes other write transactions (layer 2 of Sched/BuildLock.v); fcntl byte locks are exclusive and die with their process"]
 
 
 def finish(res, prop, proof, cov, viol, known=None):
